@@ -18,8 +18,11 @@ R = [1024, 256, 1000]
 
 
 class Store(object):
-    def __init__(self, float_file=False, from_handle=False, minimal=False):
+    def __init__(self, float_file=False, from_handle=False, minimal=False, time_channel=False):
         self.from_handle = from_handle
+        # time_channel: the first channel is the time channel - the acquisition time then FOLLOWS THE EVENTS (a write to the
+        # first event moves it), like every other answer that is derived from the buffer
+        names = ['Time' if time_channel else 'c1', 'c2', 'c3']
         self.handles = []
         d = tlc.scratch('heap_')
         self.path = os.path.join(d, 'h.fcs')
@@ -27,13 +30,13 @@ class Store(object):
                  ('MYKEY', 'my/value')]
         if minimal:
             # only the required keywords: every optional attribute (time step, start / end time, voltages, gains, labels) is absent
-            fcsgen.write_sample(self.path, EVENTS, ['c1', 'c2', 'c3'], R, bits=16, pne=['0,0', '4,1', '2,0.5'])
+            fcsgen.write_sample(self.path, EVENTS, names, R, bits=16, pne=['0,0', '4,1', '2,0.5'])
         elif float_file:
-            fcsgen.write_sample(self.path, [[float(v) for v in r] for r in EVENTS], ['c1', 'c2', 'c3'], R, datatype='F',
+            fcsgen.write_sample(self.path, [[float(v) for v in r] for r in EVENTS], names, R, datatype='F',
                                 pne=['0,0', '4,1', '2,0.5'], png=['2', None, None], pnv=['400', '500', '600'],
                                 pns=['A', None, 'C'], extra=extra, analysis_pairs=[('AK', 'av')])
         else:
-            fcsgen.write_sample(self.path, EVENTS, ['c1', 'c2', 'c3'], R, bits=16, pne=['0,0', '4,1', '2,0.5'],
+            fcsgen.write_sample(self.path, EVENTS, names, R, bits=16, pne=['0,0', '4,1', '2,0.5'],
                                 png=['2', None, None], pnv=['400', '500', '600'], pns=['A', None, 'C'], extra=extra,
                                 analysis_pairs=[('AK', 'av')])
 
